@@ -216,7 +216,15 @@ def sym_cov(X, rowvar=True, ddof=None, **kw):
 
 class LinalgProxy:
     def __getattr__(self, name):
-        return getattr(_np.linalg, name)
+        f = getattr(_np.linalg, name)
+        if not callable(f):
+            return f
+
+        def guarded(*a, **kw):
+            if any(has_sym(x) for x in a):
+                raise NotImplementedError(f"np.linalg.{name} has no symbolic contract (symnp.proxy.LinalgProxy)")
+            return f(*a, **kw)
+        return guarded
 
     @staticmethod
     def slogdet(M):
@@ -232,7 +240,7 @@ class LinalgProxy:
     def inv(M):
         if not has_sym(M):
             return _np.linalg.inv(_np.asarray(M, dtype=float))
-        M = _np.asarray(M)
+        M = _np.asarray(M, dtype=object)
         p = M.shape[0]
         d = det_term(M)
         out = _np.empty((p, p), dtype=object)
@@ -247,6 +255,39 @@ class LinalgProxy:
                         cof = -cof
                 out[i, j] = SymReal(cof / d)
         return out.view(SymArray)
+
+    @staticmethod
+    def det(M):
+        if not has_sym(M):
+            return _np.linalg.det(_np.asarray(M, dtype=float))
+        return SymReal(det_term(_np.asarray(M)))
+
+    @staticmethod
+    def cholesky(M, **kw):
+        """Lower Cholesky factor by the textbook recurrence (sqrt as a defined algebraic
+        number); a matrix that is not positive definite makes the path infeasible."""
+        if not has_sym(M):
+            return _np.linalg.cholesky(_np.asarray(M, dtype=float), **kw)
+        M = _np.asarray(M)
+        p = M.shape[0]
+        L = _np.empty((p, p), dtype=object)
+        L[...] = 0.0
+        for i in range(p):
+            for j in range(i + 1):
+                acc = rv(M[i, j])
+                for k in range(j):
+                    acc = acc - rv(L[i, k]) * rv(L[j, k])
+                if i == j:
+                    L[i, j] = sym_sqrt(SymReal(acc))
+                else:
+                    L[i, j] = SymReal(acc / rv(L[j, j]))
+        return L.view(SymArray)
+
+    @staticmethod
+    def solve(A, b):
+        if not (has_sym(A) or has_sym(b)):
+            return _np.linalg.solve(_np.asarray(A, dtype=float), _np.asarray(b, dtype=float))
+        return LinalgProxy.inv(_np.asarray(A, dtype=object)) @ _np.asarray(b, dtype=object)
 
     @staticmethod
     def eigvals(M):
